@@ -23,6 +23,9 @@ type c07Case struct {
 	L      *ref.JTerm `json:"l,omitempty"` // ... or the two sides (cmp)
 	R    *ref.JTerm `json:"r,omitempty"`
 	Goal string     `json:"goal"`
+	// Before: a goal that runs first in the same query - an evaluation that ends in an error and is caught. What it
+	// leaves behind must not reach the evaluation that follows.
+	Before string `json:"before,omitempty"`
 }
 
 func c07Ints(thorough bool) []int64 {
@@ -135,10 +138,13 @@ func c07Subst(t ref.Term, by ref.Term) ref.Term {
 func c07Goal(c *c07Case) (goal string, e, l, r ref.Term) {
 	vars := map[string]*ref.Var{}
 	pre := ""
+	if c.Before != "" {
+		pre = c.Before + ", "
+	}
 	inline := func(t ref.Term) (forGoal, forRef ref.Term) { return t, t }
 	if c.Shared != nil {
 		sh := ref.Dec(c.Shared, vars)
-		pre = "D = (" + ref.Text(sh) + "), "
+		pre += "D = (" + ref.Text(sh) + "), "
 		inline = func(t ref.Term) (ref.Term, ref.Term) { return c07Subst(t, ref.NewVar("D")), c07Subst(t, sh) }
 	}
 	if c.Kind == "cmp" {
@@ -340,6 +346,29 @@ func c07Work(w *h.W) {
 			w.Violation(sig, c, exp, act, size)
 		}
 	}
+	// histories: an evaluation that fails with each kind of error, in each operand position and nested, caught, then
+	// an ordinary evaluation or comparison in the same query
+	{
+		befores := []string{
+			"catch(_ is 3 - _, _, true)", "catch(_ is _ - 3, _, true)", "catch(_ is -(_), _, true)", "catch(_ is 7 // _, _, true)", "catch(_ is 2 ** (1 - _), _, true)",
+			"catch(_ is max(1, _) + 5, _, true)", "catch(1 =:= _ * 2, _, true)", "catch(_ * 2 < 1, _, true)", "catch(_ is foo + 1, _, true)", "catch(_ is 1 + a, _, true)",
+			"catch(_ is 1 / 0, _, true)", "catch(_ is 7 mod 0, _, true)", "catch(_ is 9223372036854775807 + 1, _, true)", "catch(_ is 1.0e308 * 10, _, true)",
+			"catch(_ is 1 << 1.0, _, true)", "catch(_ is \"ab\" + 1, _, true)", "catch(_ is 3 - (4 * (5 + _)), _, true)", "catch(\\+ _ is 3 - _, _, true)", "catch(_ is 3 - _, _, true), catch(_ is 4 * _, _, true)",
+		}
+		after := []ref.Term{ref.C("*", ref.Int(10), ref.Int(2)), ref.C("-", ref.Int(3), ref.Int(3)), ref.C("+", ref.Int(4611686018427387904), ref.Int(1)), ref.C("//", ref.Int(7), ref.Int(2)),
+			ref.C("-", ref.Int(5)), ref.C("**", ref.Int(2), ref.Int(3)), ref.C("max", ref.Int(1), ref.Int(2)), ref.C("+", ref.Flt(1.5), ref.Int(1)), ref.C("abs", ref.Int(-3)), ref.C("mod", ref.Int(5), ref.Int(3)), ref.Int(7), ref.Flt(0.5)}
+		for _, b := range befores {
+			for _, e := range after {
+				if !w.Mine() {
+					continue
+				}
+				run(&c07Case{Kind: "expr", E: ref.Enc(e), Before: b}, 2)
+				for _, op := range []string{"<", "=:=", ">="} {
+					run(&c07Case{Kind: "cmp", Op: op, L: ref.Enc(e), R: ref.Enc(ref.Int(2)), Before: b}, 2)
+				}
+			}
+		}
+	}
 	// complete grid: unary
 	for _, f := range c07Unary {
 		for _, x := range nums {
@@ -479,7 +508,7 @@ func c07Replay(b []byte) (string, string, bool) {
 func init() {
 	h.Register(&h.Check{
 		ID: "C07",
-		Rule: "complete boundary grid: every unary and binary evaluable functor of the statement over all (pairs of) values of an integer grid dense around 0, 2^31, 2^32, sqrt(2^63), 2^53, 2^62, 2^63 plus every power of two up to 2^20 (thorough: 2^62) with its neighbours and a float grid of all magnitudes/signs, in all four int/float combinations; all shift counts 0..63; the six comparison predicates over the same pairs; all depth-2 expression trees over a reduced grid; a depth sweep 0..70 (300) of left- and right-nested chains whose bottom (and top) is ONE compound bound to a variable beforehand (a shared sub-expression), next to the same chains without sharing. A case is non-trivial when the reference defines its outcome (value set or error kind); distinct = distinct goal text.",
+		Rule: "complete boundary grid: every unary and binary evaluable functor of the statement over all (pairs of) values of an integer grid dense around 0, 2^31, 2^32, sqrt(2^63), 2^53, 2^62, 2^63 plus every power of two up to 2^20 (thorough: 2^62) with its neighbours and a float grid of all magnitudes/signs, in all four int/float combinations; all shift counts 0..63; the six comparison predicates over the same pairs; all depth-2 expression trees over a reduced grid; a depth sweep 0..70 (300) of left- and right-nested chains whose bottom (and top) is ONE compound bound to a variable beforehand (a shared sub-expression), next to the same chains without sharing. A case is non-trivial when the reference defines its outcome (value set or error kind); distinct = distinct goal text.; plus histories: 19 evaluations that end in an error (an unbound operand in every position and nested, type, evaluation and overflow errors), caught, each followed in the same query by 12 ordinary evaluations and 36 comparisons",
 		Explanation: "state = one expression (or comparison) over the grid; transition = one evaluation of it by the real interpreter (X is E / E1 op E2 through Query) compared with the math/big + IEEE-754 reference; every case is a one-step trace validated against the implementation",
 		Assumptions: []string{
 			"reference: integers with math/big and ISO 9.1/9.3/9.4 definitions (// truncating, div flooring, mod sign of divisor, rem sign of dividend); floats: Go float64 arithmetic is IEEE-754 binary64",
